@@ -1707,10 +1707,9 @@ impl Rem<Vec3A> for Vec3A {
     type Output = Self;
     #[inline]
     fn rem(self, rhs: Self) -> Self {
-        unsafe {
-            let n = vrndmq_f32(vdivq_f32(self.0, rhs.0));
-            Self(vsubq_f32(self.0, vmulq_f32(n, rhs.0)))
-        }
+        // There is no SIMD remainder instruction and `a - (a / b).floor() * b` is neither
+        // truncated nor exact, so use the scalar `%` on each element.
+        Self::new(self.x.rem(rhs.x), self.y.rem(rhs.y), self.z.rem(rhs.z))
     }
 }
 
